@@ -59,5 +59,15 @@ add("C12", "exploration",
     "Render rules come from a small registry of pure functions; recipes contain configuration operations only.",
     "stateful property-based testing (Hypothesis-generated multi-instance histories); oracle: configuration-recipe replay on a fresh instance (differential) + snapshot invariants",
     "DESIGN.md section 4, C12")
+add("C13", "exploration",
+    "The harness owns the schedule: threads are serialised by a deterministic scheduler on sys.monitoring INSTRUCTION events of library code, and a schedule (list of quanta) is a reproducible, generated value. Systematic single-switch sweeps (every pre-emption point inside rule-management code at the stated stride, uniform grid elsewhere), Hypothesis-generated multi-switch plans for 2 (thorough 3) threads, and nested re-entrant calls from plugin rules of every chain and from a render rule at every k-th invocation; every call must return exactly its solo result within a deterministic instruction budget.",
+    "Pre-emption between byte-codes of markdown_it code only; process-global lazies warmed; all single-switch points only at the stated stride/grid, multi-switch schedules sampled.",
+    "schedule-owning property-based testing (deterministic byte-code scheduler + systematic single-switch sweep + generated multi-switch plans + re-entrancy injection); oracle: interleaved == solo",
+    "DESIGN.md section 4, C13")
+add("C14", "fault_enumeration",
+    "For generated (document, configuration, entry point) triples every user-replaceable callback (each active rule of the four chains via Ruler.at, each render rule via add_render_rule, the highlight callback) is wrapped, its invocations are counted, and an exception of four kinds is injected at the enumerated crash points (all in thorough, stratified sample per callback in quick); plus reset_rules bodies leaving normally/by exception/nested. The injected object must reach the caller and the instance must equal a never-failed control (rules, options, probe parses/renders).",
+    "Wrappers read the original function/alt list from Ruler.__rules__; crash points are whole callback invocations (an exception raised in the middle of a library rule is not modelled).",
+    "fault injection at enumerated callback invocations (Hypothesis-generated documents/configurations/reset_rules bodies); oracle: exception identity + instance vs. never-failed control",
+    "DESIGN.md section 4, C14")
 ALL = ["C%02d" % i for i in range(1, 21)]
 NA = [{"property_id": p, "reason": "check under construction in this round; not claimed until its oracle is built and shown quiet on the unchanged tree"} for p in ALL if p not in CHECKS]
